@@ -125,5 +125,20 @@ def CG.nullableSound (g : CG) : Bool :=
   let set := nullIter g (g.syms.size + 1)
   (List.range g.syms.size).all (fun s => !(g.sym s).nullable || set.contains s)
 
+/-- one round of the productivity computation (a lexeme is taken to match something) -/
+def prodStep (g : CG) (set : List Nat) : List Nat :=
+  (List.range g.syms.size).filter (fun s =>
+    set.contains s || (g.sym s).lexeme.isSome || (g.sym s).nullable ||
+    (g.sym s).rules.any (fun r => (g.rhsFrom g.rhs.size r).all (fun x => set.contains x)))
+
+def prodIter (g : CG) : Nat → List Nat
+  | 0 => []
+  | n + 1 => prodStep g (prodIter g n)
+
+/-- every symbol that occurs in a right-hand side derives some lexeme sequence -/
+def CG.allProductive (g : CG) : Bool :=
+  let set := prodIter g (g.syms.size + 1)
+  (List.range g.rhs.size).all (fun p => g.atDot p == 0 || set.contains (g.atDot p))
+
 end Ey
 end LlgVerif
